@@ -218,7 +218,7 @@ def run(ctx):
     recproc, rectrace = start_recorded_tests(recwd)
     ctx.rule = ('TLC enumerates every behaviour of Session (C15 alphabet: Sample, SampleRaises, SetSeed, GlobalSeed, '
                 'GlobalDraw, Fit; 2 objects, all seeded/unseeded and fitted/unfitted set-ups) up to the tier bound, '
-                'plus simulated longer ones; each is executed on real objects of every sampler class; a case is one '
+                'plus simulated longer ones; each is executed on real objects of every sampler class; seed forms: an int, a RandomState object of its own per model, one RandomState object shared by all models that ask for the same seed; a case is one '
                 '(class binding, seed form, behaviour) triple; non-trivial = the behaviour contains at least one '
                 'sampling call on a fitted model; distinct by content')
     ctx.assumptions = ['generator states are compared through their full MT19937 state (key, position, gauss cache)',
@@ -266,7 +266,7 @@ def run(ctx):
     plans_rs = [{'kind': 'main', 'maxlen': 2 if quick else 3}, {'kind': 'draw', 'maxlen': 4}]
     want = []
     for b in binds:
-        for form, pl in (('int', plans), ('rs', plans_rs)):
+        for form, pl in (('int', plans), ('rs', plans_rs), ('shared', plans_rs)):
             pcs = [pc for pc in (plan_cfg(b, plan) for plan in pl) if pc is not None]
             want.append((b.name, {'seedform': form}, pcs))
     SJ.run_session_jobs(ctx, 'C15', want, 'harness.props.C15', ('Sample',),
